@@ -282,6 +282,13 @@ def m_pow(a, b):
         if bool(compare(b, 0, "<")):
             return 0.0
         return 1.0
+    if not is_sym(a) and not isinstance(a, bool) and a == 0 and is_sym(b):
+        # numpy semantics (np.float64 base): 0 ** negative = inf (Python floats would raise ZeroDivisionError)
+        if bool(compare(b, 0, ">")):
+            return 0.0
+        if bool(compare(b, 0, "<")):
+            return INF
+        return 1.0
     # general power: uninterpreted pow(a, b), positive for a > 0
     at, bt = as_real_term(lift(a)), as_real_term(lift(b))
     p = uf("pow", 2)(at, bt)
